@@ -433,21 +433,15 @@ impl RdbEngine {
                 
                 // Write each key-value pair
                 for key in keys {
-                    // Get value
-                    match storage.get(db_idx, &key)? {
-                        GetResult::Found(value) => {
-                            #[cfg(feature = "verif")]
-                            crate::verif::gate("rdb.after_value");
-                            
-                            // Get TTL if any
-                            let ttl = storage.ttl(db_idx, &key)?;
-                            
-                            // Write key-value pair
-                            writer.write_key_value(&key, &value, ttl)?;
-                        }
-                        _ => {
-                            // Key doesn't exist or expired, skip
-                        }
+                    // Value and TTL in one storage call (one lock acquisition), so that the pair
+                    // written is the key's state at a single instant; a key that is gone or
+                    // expired meanwhile is skipped
+                    if let Some((value, ttl)) = storage.get_with_ttl(db_idx, &key)? {
+                        #[cfg(feature = "verif")]
+                        crate::verif::gate("rdb.after_value");
+
+                        // Write key-value pair
+                        writer.write_key_value(&key, &value, ttl)?;
                     }
                 }
             }
